@@ -240,6 +240,21 @@ def run(ctx):
         n_inv = len(hcalls) + sum(len([x for x in prog.bodies[h.term.rcallee].blocks if is_dyn_call(x.term) and not x.cleanup]) for h in helper_polls)
         hcalls = hcalls + helper_polls
         ctx.floor('R04.3', 'hook invocations in HookVec::apply', n_inv, 2)
+        # every hook of the list is invoked: from the Some arm of the iterator's next() no path returns to next() (or to the
+        # successful end) without having invoked the element
+        nxt = [blk for blk in ap.blocks if blk.term.kind == 'call' and not blk.cleanup and any(n.endswith('::next') and 'Iter' in n for n in blk.term.callee_names())]
+        for nx in nxt:
+            sws_ = [blk for blk in ap.blocks if blk.term.kind == 'switch' and blk.term.j.get('adt') == 'std::option::Option' and 'on' in blk.term.j and
+                    any(s_[0] == 'call' and s_[2] == nx.idx for s_ in sources(aan, Operand({'c': blk.term.j['on']})))]
+            for sw_ in sws_:
+                some = dict(sw_.term.switch_arms()).get('Some')
+                if some is None:
+                    continue
+                esc = aan.reach([some], ('normal',), avoid=[h.idx for h in hcalls])
+                okret = [bb for bb, cls, det in aan.ret_assignments() if cls == 'ok' and bb in esc]
+                skipped = nx.idx in esc or bool(okret)
+                ctx.ob('R04.3', 'every registered hook is invoked (no element of the list is skipped)', not skipped, ctx.where(ap, sw_.term.line),
+                       'a path from taking the next hook back to the loop head (or to Ok) does not invoke it: a verifying hook can be bypassed' if skipped else '', construct='hooks-skip')
         ok_e, fail_e = success_edges(aan)
         for h in hcalls:
             reach = reach_without_edges(aan, h.idx, ok_e, ('normal',))
